@@ -47,7 +47,7 @@ CLAIMED = {
          '(id 0 included), call() result as theorems; adversarial EVENT/ACK streams on both client families and the model.',
          TB + 'engine.io client contract.', '§5 C09'),
  'C10': ('proof', 'Lean 4 theorems over an exact-rational model of the reconnection loop and its start decision; correspondence with Client/AsyncClient over scripted engine.io outcomes and wait primitives',
-         'Back-off formula, attempt bound, first-success stop, abort, same-parameters and start-decision theorems for unbounded efforts; every '
+         'Back-off formula, attempt bound, first-success stop, abort, same-parameters (stored parameters kept while namespaces come and go: stored_kept, lose_same_parameters) and start-decision theorems for unbounded efforts; every '
          'failure pattern up to length 6 and the full parameter grid executed on both client families, waits observed through the wait primitives.',
          TB + 'engine.io client state contract (measured every run); dyadic parameter grid so floats are exact.', '§5 C10'),
  'C11': ('proof', 'Lean 4 erase/fresh theorems over the server-core model; correspondence under fault scripts; model-free object-graph probe',
@@ -57,7 +57,7 @@ CLAIMED = {
  'C12': ('proof', 'Lean 4 unwinding/confinement theorems over the server-core model, parametric in the decoder; correspondence on hostile streams; two-run noninterference oracle on the real servers',
          'step_confined / undecodable_inert / bounded_reserve as theorems for every decoder result; hostile frame streams from one '
          'transport interleaved with bystanders run on both families and the model, and each scenario re-run without the offender.',
-         TB + 'handlers passive; allocation probed with tracemalloc; msgpack serializer not yet covered.', '§5 C12'),
+         TB + 'handlers passive; allocation probed with tracemalloc; default and msgpack serializers.', '§5 C12'),
  'C13': ('proof', 'Lean 4 theorems over arbitrary registries + reserved lists regenerated from source; exhaustive correspondence with the four real classes',
          'The precedence table is a theorem for every registry; reserved-event lists are regenerated from the source on every run; all '
          '2^6 x variants configurations are executed on Server/AsyncServer/Client/AsyncClient.',
@@ -86,7 +86,7 @@ CLAIMED = {
  'C19': ('proof', 'Lean 4 invariants over ALL interleavings of a statement-level model of SimpleClient/AsyncSimpleClient; exhaustive/sampled schedules of the real classes under a deterministic scheduler',
          'fifo_once, no_lost_wakeup, timeout/disconnected clauses, emit_waits, deadlock characterisation as theorems for every schedule; '
          'the real classes run under a deterministic scheduler with pre-emption at every Event/buffer access and are compared with the model token by token.',
-         TB + 'each shared access atomic; single producer; CPython>=3.12 wait_for semantics; two receive() re-test defects are known findings.', '§5 C19'),
+         TB + 'each shared access atomic; single producer; CPython>=3.12 wait_for semantics; one receive() re-test defect is a known finding (the other was repaired in 88dccd8 and its theorem is now at full strength).', '§5 C19'),
  'C20': ('proof', 'Lean 4: serial-gate theorem for all schedules of the scheduler model + machine-checked race counter-examples; exhaustive interleavings of the real threaded Server under a deterministic scheduler',
          'gate_serial_partial (terminating causes and refusing CONNECTs) for every schedule without overlapping check..mark windows; race_double_call / race_raise_residue decided; '
          'all interleavings of 2 (quick) / 3 (thorough) terminating actions at manager/transport-call granularity on the real Server, each mapped to the model.',
